@@ -41,6 +41,7 @@ func init() {
 		"strings.TrimPrefix":             sumTrimPrefix,
 		"strings.TrimSuffix":             sumTrimSuffix,
 		"strings.ContainsRune":           sumContainsRune,
+		"strings.ContainsAny":            sumContainsAny,
 		"strings.EqualFold":              sumEqualFold,
 		"strings.Index":                  sumIndex,
 		"unicode/utf8.RuneCountInString": func(fr *frame, a []value) value { return mkInt(64, int64(len(a[0].(Str).R))) },
@@ -183,6 +184,12 @@ func init() {
 				}
 			}
 			m.wsHits = nil
+			return nil
+		},
+		"vConcurrently": func(fr *frame, a []value) value {
+			// the engine has no concurrency model: the body runs once (index 0) under the
+			// write-set monitor; the native replay runs it in two goroutines under -race
+			fr.m.call(fr, a[0], []value{mkInt(64, 0)})
 			return nil
 		},
 		"vObserve": func(fr *frame, a []value) value {
@@ -779,4 +786,19 @@ func sumIndex(fr *frame, a []value) value {
 		off = c.Add(off, m.utf8Len(s.R[i]))
 	}
 	return mkInt(64, -1)
+}
+
+func sumContainsAny(fr *frame, a []value) value {
+	m := fr.m
+	c := m.ctx
+	s, chars := a[0].(Str), a[1].(Str)
+	m.needConcreteStr(s, "strings.ContainsAny")
+	m.needConcreteStr(chars, "strings.ContainsAny")
+	var res *Term = falseT
+	for _, x := range s.R {
+		for _, y := range chars.R {
+			res = c.Or(res, c.Eq(x, y))
+		}
+	}
+	return res
 }
